@@ -421,6 +421,12 @@ func (s *State) Answer(task string, results map[string]int64) error {
 			s.Vars[w] = v
 		}
 	}
+	for _, o := range n.Outputs {
+		name, _, _ := strings.Cut(o, "=")
+		if v, ok := results[name]; ok {
+			s.Objs[name] = v
+		}
+	}
 	var work []arrival
 	conditional := false
 	for _, fid := range n.Out {
